@@ -47,6 +47,12 @@ Theorem C09_neg_abs_refine : forall a a', Rv a a' -> Rv (neg_cells a) (np_neg a'
 Proof. intros. split; [now apply neg_refines | now apply abs_refines]. Qed.
 Print Assumptions C09_neg_abs_refine.
 
+(* comparisons (template gt/lt/ge/le and hand-written eq/ne), operands of equal size *)
+Theorem C09_cmp_sparse_same_refines : forall c a a' b b', Rv a a' -> Rv b b' -> length a = length b ->
+  rrel eq (cmp_sparse c a b) (np_cmp c a' b').
+Proof. exact cmp_sparse_same_refines. Qed.
+Print Assumptions C09_cmp_sparse_same_refines.
+
 (* ---------- division: partial ---------- *)
 (* full statement, refuted because 0/0 is 0 in the sparse code and an error for NumPy under seterr(invalid='raise') *)
 Theorem C09_div_refuted : ~ div_statement.
